@@ -23,7 +23,7 @@ Definition jout (j : junit) := (j_tests j, j_failures j, j_errors j, j_skipped j
 Definition runfile (rargs aargs : tolargs) (incl excl : list nat) (is ir : bool) (r s : readres dataset) :=
   let fc := file_compare (cmp_datasets rargs aargs (tbl incl) (tbl excl) is ir) false false r s in
   (cli_file_datasets rargs aargs (tbl incl) (tbl excl) is ir false false r s,
-   match fc with FSuite t => Some (jout (junit_of t)) | FRaise => None end).
+   match fc with FSuite t => Some (jout (junit_of 9999 t)) | FRaise => None end).
 """
 NAMES = ["x", "y", "p", "vel", "id", "tag", "T", "rho"]
 TSTAT = {"TPassed": 0, "TFailed": 1, "TError": 2, "TSkipped": 3}
@@ -433,7 +433,8 @@ def decode_model(val, names):
     _, (tests, fails, errs, skipped, cases) = j
     tagn = {0: "failure", 1: "error", 2: "skipped"}
     return {"exit": code, "junit": {"tests": tests, "failures": fails, "errors": errs, "skipped": skipped,
-                                    "cases": sorted((names[n], sorted(tagn[t] for t in tags)) for n, tags in cases)}}
+                                    "cases": sorted(((names[n] if n != 9999 else "file comparison"), sorted(tagn[t] for t in tags))
+                                                    for n, tags in cases)}}
 
 
 def gen_scenarios(rng, n):
